@@ -15,7 +15,9 @@ EXTENDS IslaSemantics, SequencesExt, Json, IOUtils
 Data == JsonDeserialize(IOEnv.CASE_FILE)
 
 VARIABLES done, i
-OpenShapes == { Shape(o) : o \in { x \in UNION { Prunings(Data.closed[k]) : k \in 1..Len(Data.closed) } : IsOpenTree(x) } }
+(* small trees: all prunings; larger trees: all prunings with at most two opened nodes *)
+PrunedOf(t) == IF Size(t) <= 14 THEN Prunings(t) ELSE PruningsK(t, 2)
+OpenShapes == { Shape(o) : o \in { x \in UNION { PrunedOf(Data.closed[k]) : k \in 1..Len(Data.closed) } : IsOpenTree(x) } }
 GInit == /\ done = JsonSerialize(IOEnv.OUT_FILE, [open |-> SetToSeq(OpenShapes)])
          /\ i = 0
 GNext == UNCHANGED <<done, i>>
